@@ -171,6 +171,24 @@ def _cascade(shard):
     from speckit import noise
 
     out = {"evals": 0, "nontrivial": 0, "failures": [], "samples": [], "extra": {}}
+    # the cascade routine is an internal function: find it by its documented name, else by signature
+    cascade = getattr(noise, "_numba_lfilter_cascade", None)
+    if cascade is None:
+        for nm in dir(noise):
+            fobj = getattr(noise, nm)
+            if "cascade" in nm.lower() and callable(fobj) and not isinstance(fobj, type):
+                try:
+                    y_, z_ = fobj(np.zeros(2), np.array([[1.0, 0.0]]), np.array([[1.0, 0.0]]), np.zeros((1, 1)))
+                    if np.shape(y_) == (2,):
+                        cascade = fobj
+                        break
+                except Exception:  # noqa: BLE001
+                    continue
+    if cascade is None:
+        out["evals"] = 1
+        out["extra"]["cascade_routine_not_found"] = 1
+        out["samples"].append({"cascade": "no standalone cascade routine found; covered only through the generators' streams"})
+        return out
     g = noise.alpha_noise(10.0, 0.1, 2.0, 1.3, init_filter=False, seed=0)
     try:
         real = (np.array(g._a_coeffs, copy=True), np.array(g._b_coeffs, copy=True))
@@ -189,7 +207,7 @@ def _cascade(shard):
                     parts, rparts = [], []
                     for seg in (x[:split], x[split:]):
                         seg = np.ascontiguousarray(seg, dtype=np.float64)
-                        y, zi = noise._numba_lfilter_cascade(seg, A, B, zi)
+                        y, zi = cascade(seg, A, B, zi)
                         parts.append(np.asarray(y))
                         r = seg.copy()
                         for i in range(ns):
